@@ -30,6 +30,7 @@ from happysimulator.components.replication.conflict_resolver import (
     CustomResolver,
     LastWriterWins,
     VectorClockMerge,
+    VersionedValue,
 )
 from happysimulator.components.replication.multi_leader import LeaderNode
 from happysimulator.components.replication.primary_backup import BackupNode, PrimaryNode, ReplicationMode
@@ -54,6 +55,39 @@ def enc(v):
     if isinstance(v, int) and not isinstance(v, bool) and 0 < v < ODD:
         return v
     return ODD
+
+
+def cell(v):
+    """Multi-leader store cell: sorted list of the write ids the value contains ([] = absent).  Values are
+    tuples of write ids: (w,) for a client write, longer for a value built by a merging resolver."""
+    if v is None:
+        return []
+    if isinstance(v, tuple) and v and all(isinstance(x, int) and not isinstance(x, bool) and 0 < x < ODD for x in v):
+        return sorted(set(v))
+    return [ODD]
+
+
+def wid(v):
+    """Write id of a client-written value (multi-leader: the 1-tuple (w,); elsewhere the int w)."""
+    if isinstance(v, tuple):
+        return enc(v[0]) if len(v) == 1 else ODD
+    return enc(v)
+
+
+def union_version(a, b):
+    """What a merging resolver builds from two concurrent versions: union of the values, element-wise max of
+    the vector clocks (commutative, associative, idempotent)."""
+    va, vb = a.vector_clock or {}, b.vector_clock or {}
+    return VersionedValue(value=tuple(sorted(set(a.value) | set(b.value))),
+                          timestamp=max(a.timestamp, b.timestamp), writer_id=max(a.writer_id, b.writer_id),
+                          vector_clock={n: max(va.get(n, 0), vb.get(n, 0)) for n in sorted(set(va) | set(vb))})
+
+
+def union_all(key_, versions):
+    out = versions[0]
+    for v in versions[1:]:
+        out = union_version(out, v)
+    return out
 
 
 class ScriptedLatency(LatencyDistribution):
@@ -274,6 +308,10 @@ class World:
                     r = VectorClockMerge(merge_fn=lambda k, a, b: LastWriterWins().resolve(k, [a, b]))
                 elif res == "custom":
                     r = CustomResolver(lambda k, vs: max(vs, key=lambda v: (v.timestamp, v.writer_id)))
+                elif res == "vcm_union":        # merging resolvers: the winner is a NEW VersionedValue
+                    r = VectorClockMerge(merge_fn=lambda k, a, b: union_version(a, b))
+                elif res == "custom_union":
+                    r = CustomResolver(union_all)
                 else:
                     r = None
                 self.nodes[i] = L(f"n{i}", store=self.mk_store(i), network=self.net, conflict_resolver=r,
@@ -303,7 +341,8 @@ class World:
 
     def store_of(self, i):
         st = self.stores[i]
-        return [enc(st.get_sync(key(k))) for k in range(1, self.nk + 1)]
+        f = cell if self.proto == "ml" else enc
+        return [f(st.get_sync(key(k))) for k in range(1, self.nk + 1)]
 
     def snapshot(self):
         return [self.store_of(i) for i in range(1, self.n + 1)]
@@ -313,7 +352,7 @@ class World:
         if self.proto == "chain":
             out["dirty"] = [sorted(int(k[1:]) for k in self.nodes[i].dirty_keys) for i in range(1, self.n + 1)]
         if self.proto == "ml":
-            out["ver"] = [[enc(self.nodes[i].versions[key(k)].value) if key(k) in self.nodes[i].versions else 0
+            out["ver"] = [[cell(self.nodes[i].versions[key(k)].value) if key(k) in self.nodes[i].versions else []
                            for k in range(1, self.nk + 1)] for i in range(1, self.n + 1)]
         return out
 
@@ -372,7 +411,8 @@ class World:
                 f = ReplyFuture(self, "ack", w)
                 self.futs[("w", w)] = f
                 evs.append(Event(time=Instant.from_seconds(float(t)), event_type="Write", target=self.nodes[op[2]],
-                                 context={"metadata": {"key": key(op[3]), "value": w, "reply_future": f}}))
+                                 context={"metadata": {"key": key(op[3]), "value": (w,) if self.proto == "ml" else w,
+                                                       "reply_future": f}}))
             elif kind == "r":
                 self.nreads += 1
                 r = self.nreads
@@ -492,7 +532,7 @@ def to_trace(world, tid, conf=True):
         typ = ctx.get("type")
         if e == "arr":
             if typ == "Write":
-                w = enc(ctx.get("value"))
+                w = wid(ctx.get("value"))
                 ev.append(_ev("w", n=n, w=w, k=_k(ctx.get("key")), x=rank[r["t"]] if proto == "ml" else 0))
             elif typ == "Read":
                 if "source" in ctx:
@@ -508,7 +548,7 @@ def to_trace(world, tid, conf=True):
             elif typ == "Propagate":
                 ev.append(_ev("rv", n=n, m="prop", w=enc(ctx.get("value"))))
             elif typ == "Replicate" and proto == "ml":
-                ev.append(_ev("rv", n=n, m="repl", w=enc(ctx.get("value")), vc=ctx.get("vc", [])))
+                ev.append(_ev("rv", n=n, m="repl", w=wid(ctx.get("value")), vc=ctx.get("vc", [])))
             elif typ == "ReplicationAck":
                 ev.append(_ev("rv", n=n, m="rack", w=int(ctx.get("seq", 0))))
         elif e == "vs":
@@ -519,7 +559,8 @@ def to_trace(world, tid, conf=True):
                 ev.append(_ev("sd", n=n, w=enc(ctx.get("value")), st=r["st"]))
         elif e == "pd":
             if typ in ("Write", "Replicate", "Propagate"):
-                ev.append(_ev("pd", n=n, w=enc(r["v"]), st=r["st"]))
+                # multi-leader: identified by the write the handler is about (a merging resolver stores a union)
+                ev.append(_ev("pd", n=n, w=wid(ctx.get("value")) if proto == "ml" else enc(r["v"]), st=r["st"]))
         elif e == "gd":
             if proto == "chain":
                 ev.append(_ev("gd", n=n, w=ctx.get("ident", 0)))
